@@ -47,7 +47,7 @@ def run(tier, seed):
         rule='all orders of application close()/send at any event (incl. Connecting, Connected, Closing) with server frames '
              '(data, fragments, ping, Close 1000+reason / empty / 4000) up to the bound; non-trivial = distinct histories in which a '
              'Close frame was written',
-        nontrivial=nontrivial, anchors=anchors, sample_keys=('ev', 'wr', 'call'),
+        nontrivial=nontrivial, need_actions=('CloseFin', 'CloseEcho', 'ExitGraceful', 'AppReact'), anchors=anchors, sample_keys=('ev', 'wr', 'call'),
         random_scripts=[{'cfgname': 'CfgPlain', 'cfg': PLAIN, 'n': (300, 4000), 'items': 'C08Items', 'faults': set()}])
     need = {'closing', 'closed', 'app_close_frame', 'send_refused', 'send_during_closing', 'close_during_closing', 'close_before_ready'}
     missing = sorted(need - seen)
